@@ -438,6 +438,45 @@ def emit_client(kind: str, msgs: list[bytes]) -> list[bytes]:
     return chunks
 
 
+def emit_client_concurrent(kind: str, msgs: list[bytes]) -> tuple[list[bytes], list[bytes]]:
+    """Two tasks of the caller write to ONE transport at the same time (pairwise: msgs[0] with msgs[1], ...), as the
+    cyclic TesterPresent worker and a scanner do.  Returns (messages in the order their first byte reached the wire,
+    wire chunks).  A message is handed over whole: the stream is the concatenation of the encoded messages in some
+    order; if it is not, the stream is returned as one chunk and the readers will say what they got."""
+    out: list[bytes] = []
+    sent: list[bytes] = []
+
+    async def main() -> None:
+        lis = streams.Listener()
+        with streams.patched_connections(lis):
+            tr = await CLS[kind].connect(FAKE_URI[kind])
+        wire = lis.wires[0]
+        for i in range(0, len(msgs) - 1, 2):
+            await asyncio.gather(tr.write(msgs[i], timeout=1.0), tr.write(msgs[i + 1], timeout=1.0))
+            sent.extend(msgs[i:i + 2])
+        out.append(b"".join(b for _, b in wire.out))
+        await tr.close()
+
+    vloop.run(main(), horizon=3600.0)
+    stream = out[0]
+    contents: list[bytes] = []
+    chunks: list[bytes] = []
+    rest = stream
+    pending = list(sent)
+    while rest and pending:
+        hit = next((m for m in pending if rest.startswith(ref_encode(m))), None)
+        if hit is None:
+            break
+        pending.remove(hit)
+        contents.append(hit)
+        chunks.append(ref_encode(hit))
+        rest = rest[len(ref_encode(hit)):]
+    if rest or pending:
+        # not a concatenation of whole messages: hand the readers the stream as it is
+        return list(sent), [stream] + [b""] * (len(sent) - 1)
+    return contents, chunks
+
+
 # --------------------------------------------------------------------------
 # real sockets (normal event loop, real time)
 
